@@ -7,6 +7,8 @@ rationals at Level A, symbolic at Level B).
 """
 from .. import scen, common, sym, lpsem, lift, embed_ref, shapes
 
+from . import c17 as _c17      # registers the shape 'slp_transport' (transport with cost series, forward / reverse)
+
 PROP = 'C02'
 SHAPE_OF = {}
 
@@ -31,6 +33,8 @@ QUICK = [
     _c('ext_transport', 'ext_transport', dict(T=3)),
     _c('caps_timeseries', 'caps_ts', dict(T=3)),
     _c('window_storage', 'contract_storage', dict(T=4, win_s=(1, 3), win_c=(0, 3))),
+    _c('reverse_transport_costs', 'slp_transport', dict(T=3, reverse=True)),
+    _c('forward_transport_cost_series', 'slp_transport', dict(T=3)),
     _c('window_last_step_only', 'contract_storage', dict(T=4, win_s=(3, 4), win_c=(0, 1))),
     _c('window_between_grid_points', 'contract_storage', dict(T=4, win_s=(0.5, 2.5), win_c=(1, 3.25), wacc=True)),
     _c('caps_interval_data', 'caps_dict', dict(T=4, wacc=True)),
